@@ -23,7 +23,7 @@ def section(notes, pat):
     return ' '.join(m.group(2).split())[:900] if m else ''
 
 
-def do_import(src, log):
+def do_import(src, log, tag='', base=BASE_COMMIT):
     conf = {}
     for ln in open(log):
         p = ln.split()
@@ -33,7 +33,7 @@ def do_import(src, log):
         if not os.path.isfile(os.path.join(d, 'patch.diff')):
             continue
         pid, k = os.path.basename(os.path.dirname(d)), os.path.basename(d)
-        out = os.path.join(SEEDED, '%s-%s' % (pid, k))
+        out = os.path.join(SEEDED, '%s-%s%s' % (pid, tag, k))
         shutil.rmtree(out, ignore_errors=True)
         os.makedirs(out)
         for f in os.listdir(d):
@@ -46,14 +46,14 @@ def do_import(src, log):
         c = conf.get((pid, k), '')
         meta = {
             'property': pid,
-            'seed': '%s-%s' % (pid, k),
+            'seed': '%s-%s%s' % (pid, tag, k),
             'title': title,
             'files_changed': files,
             'written_by': 'a fresh sub-agent given only the property text and a scratch git worktree of /repo (nothing from /verif)',
             'what_it_needs_to_manifest': section(notes, r'need|manifest|trigger') or 'see notes.md',
-            'base_commit': BASE_COMMIT,
+            'base_commit': base,
             'confirmed_by_me': {
-                'where': 'scratch worktree /tmp/wt/confirm of /repo at %s (removed afterwards)' % BASE_COMMIT,
+                'where': 'scratch worktree of /repo at %s (removed afterwards)' % base,
                 'commands': ['bash demo.sh <worktree>   (unmodified tree: must exit 0)', 'git apply patch.diff', 'cargo build --offline',
                              'cargo test --workspace --no-fail-fast --offline   (the 55 baseline tests)', 'bash demo.sh <worktree>   (patched tree: must exit 1)'],
                 'result': c,
@@ -116,6 +116,6 @@ def do_run(ids):
 
 if __name__ == '__main__':
     if sys.argv[1] == 'import':
-        do_import(sys.argv[2], sys.argv[3])
+        do_import(sys.argv[2], sys.argv[3], *(sys.argv[4:6]))
     else:
         do_run(sys.argv[2:])
